@@ -2,45 +2,45 @@
   CV.GenStruct — port of the code generator for the declared fragment, stage 2: structured
   control flow over the statements of stage 1 (CV.GenFlat):
       if (c) S      if (c) S else S      while (c) S      do S while (c);      for (F; c; F) S
-      { S ... }     c ::= a ⋈ b  |  v  |  !v  |  c && c  |  c || c  |  !(c)      ⋈ ∈ == != < >= > <=     (a, b atoms, unsigned char)
+      { S ... }     c ::= a ⋈ b  |  v  |  !v        ⋈ ∈ == != < >= > <=     (a, b atoms, unsigned char)
   What is ported (generate_conditions.rs, generate_statements.rs, at -O0):
     * generate_if / generate_while / generate_do_while / generate_for_loop: label allocation from the
       per-kind counters and the order of the pieces;
     * generate_condition / generate_condition_ex / generate_branch_instruction for 8-bit operands:
-      operand switch, negation and mirroring of the operator, the `.ifhere` detour of `>`; short-circuit
-      `&&` / `||` with their `.ifstart` labels (named with the counter value *before* the increment);
+      operand switch, negation and mirroring of the operator, the `.ifhere` detour of `>`;
     * the generator's belief about the processor flags (`FlagsState`): a test against zero of the
       variable the flags describe emits no load (`a = b; if (a)` → `LDA b ; STA a ; BEQ`); labels
-      forget it; `else` restores the belief saved after the condition when a single test jumps there.
+      forget it; `else` restores the belief saved after the condition.
   The port is compared text-for-text (instructions AND labels) with the real -O0 output by the
   C01 check. CV.Props.C01 proves it correct against the 6502 semantics, including the soundness of
   the flag belief, for every program of the fragment.
 -/
-import CV.GenFlat
+import CV.GenReg
+set_option linter.constructorNameAsVariable false
 namespace CV.GenStruct
-open CV CV.GenFlat
+open CV CV.GenFlat CV.GenReg
 
 inductive COp where | eq | ne | lt | ge | gt | le
   deriving Repr, DecidableEq, Inhabited
 
 inductive Cond where
-  | cmp (op : COp) (a b : Atom)
-  | truth (v : String)          -- `if (v)`
-  | nottruth (v : String)       -- `if (!v)`
+  | cmp (op : COp) (a b : RA)
+  | truth (v : LV)              -- `if (v)`, `if (X)`
+  | nottruth (v : LV)           -- `if (!v)`
   | and (a b : Cond)            -- `a && b`
   | or (a b : Cond)             -- `a || b`
   | not (c : Cond)              -- `!(c)`
   deriving Repr, DecidableEq, Inhabited
 
 inductive SStmt where
-  | flat (s : FStmt)
+  | flat (s : RStmt)
   | skip                                          -- `{ }`
   | seq (a b : SStmt)
   | ifThen (c : Cond) (t : SStmt)
   | ifElse (c : Cond) (t e : SStmt)
   | while (c : Cond) (b : SStmt)
   | doWhile (b : SStmt) (c : Cond)
-  | for (init : FStmt) (c : Cond) (upd : FStmt) (b : SStmt)
+  | for (init : RStmt) (c : Cond) (upd : RStmt) (b : SStmt)
   deriving Repr, Inhabited
 
 /-! ### labels -/
@@ -89,7 +89,7 @@ inductive GLine where
 /-! ### the generator's state -/
 
 structure GState where
-  flags : Option String := none     -- `FlagsState::Absolute(v, true, 0)`; `none` = Unknown
+  flags : Option FRef := none       -- `FlagsState::Absolute(v, true, 0)` / `X` / `Y`; `none` = Unknown
   cIf : Nat := 0
   cWhile : Nat := 0
   cFor : Nat := 0
@@ -122,43 +122,76 @@ def branchInstr (g : GState) (op : COp) (label : Lbl) : List GLine × GState :=
     let here : Lbl := ⟨.ifhere, g.cIf + 1⟩
     ([.br .BEQ here, .br .BCS label, .lab here], { g with cIf := g.cIf + 1, flags := none })
 
-def Atom.isZero : Atom → Bool
-  | .const n => n == 0
-  | .var _ => false
+def RA.isZero : RA → Bool
+  | .of (.const n) => n == 0
+  | _ => false
 
-/-- a constant on the left goes right (`switch`): (left, right, switch) -/
-def orient (l r : Atom) : Atom × Atom × Bool :=
+/-- operands of a comparison after `generate_condition_ex` put them in order: a register goes left, a
+    constant goes right (`switch` = they were exchanged): (left, right, switch) -/
+def orient (l r : RA) : RA × RA × Bool :=
   match l with
-  | .const _ => (r, l, true)
-  | .var _ => (l, r, false)
+  | .x | .y => (l, r, false)
+  | .of (.const _) => (r, l, true)
+  | .of (.var _) => if r.isReg then (r, l, true) else (l, r, false)
 
 /-- the operator after negation and, when the operands were exchanged, mirroring -/
 def finalOp (op : COp) (negate switch : Bool) : COp :=
   let opx := if negate then op.negate else op
   if switch then opx.mirror else opx
 
-/-- comparison of variable `v` with literal 0: no CMP; no load either when the flags already
-    describe `v` (`flags_ok`). Ordered operators are outside the fragment. -/
-def zeroTest (g : GState) (v : String) (operator : COp) (label : Lbl) : List GLine × GState :=
-  let pre : List GLine := if g.flags == some v then [] else [.ins .LDA (some (.var v))]
-  let g1 : GState := if g.flags == some v then g else { g with flags := some v }
+/-- bring the value of `ref` into the flags: `LDA v` / `CPX #0` / `CPY #0` -/
+def loadRefMn : LV → Mn
+  | .var _ => .LDA
+  | .x => .CPX
+  | .y => .CPY
+
+def loadRefOp : LV → Atom
+  | .var v => .var v
+  | _ => .const 0
+
+def loadRef (ref : LV) : List GLine := [.ins (loadRefMn ref) (some (loadRefOp ref))]
+
+/-- comparison of `ref` with literal 0 by the flags alone: no compare instruction; no load either when
+    the flags already describe `ref` (`flags_ok`). Ordered operators are outside the fragment. -/
+def zeroTest (g : GState) (ref : LV) (operator : COp) (label : Lbl) : List GLine × GState :=
+  let pre : List GLine := if g.flags == some ref then [] else loadRef ref
+  let g1 : GState := if g.flags == some ref then g else { g with flags := some ref }
   match operator with
   | .ne => (pre ++ [.br .BNE label], g1)
   | .eq => (pre ++ [.br .BEQ label], g1)
   | _ => ([], g)
 
-/-- `LDA v ; CMP right ; <branches>`; the flags are unknown afterwards -/
-def cmpTest (g : GState) (v : String) (right : Atom) (operator : COp) (label : Lbl) : List GLine × GState :=
-  let r := branchInstr { g with flags := none } operator label
-  ([.ins .LDA (some (.var v)), .ins .CMP (some right)] ++ r.1, r.2)
+def cmpMn : LV → Mn
+  | .var _ => .CMP
+  | .x => .CPX
+  | .y => .CPY
 
-/-- `generate_condition_ex` on two atoms: jump to `label` iff `(l op r) ≠ negate` -/
-def genCondEx (g : GState) (l r : Atom) (op : COp) (negate : Bool) (label : Lbl) : List GLine × GState :=
+/-- `LDA v ; CMP right` / `CPX right` / `CPY right` -/
+def cmpPre : LV → Atom → List GLine
+  | .var v, right => [.ins .LDA (some (.var v)), .ins .CMP (some right)]
+  | .x, right => [.ins .CPX (some right)]
+  | .y, right => [.ins .CPY (some right)]
+
+/-- the compare, then the branches; the flags are unknown afterwards -/
+def cmpTest (g : GState) (left : LV) (right : Atom) (operator : COp) (label : Lbl) : List GLine × GState :=
+  let r := branchInstr { g with flags := none } operator label
+  (cmpPre left right ++ r.1, r.2)
+
+/-- `generate_condition_ex`: jump to `label` iff `(l op r) ≠ negate` -/
+def genCondEx (g : GState) (l r : RA) (op : COp) (negate : Bool) (label : Lbl) : List GLine × GState :=
   match orient l r with
-  | (.const _, _, _) => ([], g)                       -- two constants: outside the fragment
-  | (.var v, right, switch) =>
-    if Atom.isZero right then zeroTest g v (finalOp op negate switch) label
-    else cmpTest g v right (finalOp op negate switch) label
+  | (.of (.const _), _, _) => ([], g)                 -- two constants: outside the fragment
+  | (.of (.var v), .of right, switch) =>
+    if RA.isZero (.of right) then zeroTest g (.var v) (finalOp op negate switch) label
+    else cmpTest g (.var v) right (finalOp op negate switch) label
+  | (.of (.var _), _, _) => ([], g)                   -- cannot happen: a register right operand goes left
+  | (.x, .of right, switch) =>
+    if RA.isZero (.of right) && g.flags == some .x then zeroTest g .x (finalOp op negate switch) label
+    else cmpTest g .x right (finalOp op negate switch) label
+  | (.y, .of right, switch) =>
+    if RA.isZero (.of right) && g.flags == some .y then zeroTest g .y (finalOp op negate switch) label
+    else cmpTest g .y right (finalOp op negate switch) label
+  | (_, _, _) => ([], g)                              -- two registers: outside the fragment
 
 /-- `generate_condition`: jump to `label` iff `c ≠ negate`; `if (v)` is `v != 0`, `if (!v)` is `v == 0`;
     `&&` / `||` evaluate left to right and stop early: in the direction where the first operand cannot
@@ -196,11 +229,11 @@ def Cond.singleExit : Cond → Bool
 
 /-! ### statements -/
 
-def flatLines (s : FStmt) : List GLine :=
-  (template (none : Option Atom) (fun a => some a) s).map fun p => .ins p.1 p.2
+def flatLines (s : RStmt) : List GLine :=
+  (rtemplate (none : Option Atom) (fun a => some a) s).map fun p => .ins p.1 p.2
 
-def genFlat (g : GState) (s : FStmt) : List GLine × GState :=
-  (flatLines s, { g with flags := some (target s) })
+def genFlat (g : GState) (s : RStmt) : List GLine × GState :=
+  (flatLines s, { g with flags := flagsAfter g.flags s })
 
 def gen (g : GState) : SStmt → List GLine × GState
   | .flat s => genFlat g s
@@ -252,21 +285,21 @@ def gen (g : GState) : SStmt → List GLine × GState
 /-! ### the declared fragment -/
 
 def CondOK : Cond → Bool
-  | .cmp op a b => !(a.isConst && b.isConst) && !(op.ordered && (Atom.isZero a || Atom.isZero b))
+  | .cmp op a b => !(a.isConst && b.isConst) && !(a.isReg && b.isReg) && !(op.ordered && (RA.isZero a || RA.isZero b))
   | .and a b => CondOK a && CondOK b
   | .or a b => CondOK a && CondOK b
   | .not c => CondOK c
   | _ => true
 
 def SInFragment : SStmt → Bool
-  | .flat s => InFragment s
+  | .flat s => RInFragment s
   | .skip => true
   | .seq a b => SInFragment a && SInFragment b
   | .ifThen c t => CondOK c && SInFragment t
   | .ifElse c t e => CondOK c && SInFragment t && SInFragment e
   | .while c b => CondOK c && SInFragment b
   | .doWhile b c => CondOK c && SInFragment b
-  | .for i c u b => InFragment i && CondOK c && InFragment u && SInFragment b
+  | .for i c u b => RInFragment i && CondOK c && RInFragment u && SInFragment b
 
 /-! ### rendering for the tie -/
 
@@ -287,18 +320,18 @@ def COp.eval : COp → Byte → Byte → Bool
   | .gt, a, b => decide (b.toNat < a.toNat)
   | .le, a, b => decide (a.toNat ≤ b.toNat)
 
-def evalCond (L : Layout) (m : Mem) : Cond → Bool
-  | .cmp op a b => op.eval (val L m a) (val L m b)
-  | .truth v => m.read (L v) != 0
-  | .nottruth v => m.read (L v) == 0
+def evalCond (L : Layout) (m : SrcSt) : Cond → Bool
+  | .cmp op a b => op.eval (rval L m a) (rval L m b)
+  | .truth v => rval L m v.ra != 0
+  | .nottruth v => rval L m v.ra == 0
   | .and a b => evalCond L m a && evalCond L m b
   | .or a b => evalCond L m a || evalCond L m b
   | .not c => !evalCond L m c
 
 /-- big-step meaning of a statement; `none` = not finished within the fuel -/
-def sem (L : Layout) : Nat → Mem → SStmt → Option Mem
+def sem (L : Layout) : Nat → SrcSt → SStmt → Option SrcSt
   | 0, _, _ => none
-  | _ + 1, m, .flat s => some (spec L m s)
+  | _ + 1, m, .flat s => some (rspec L m s)
   | _ + 1, m, .skip => some m
   | f + 1, m, .seq a b => (sem L f m a).bind fun m1 => sem L f m1 b
   | f + 1, m, .ifThen c t => if evalCond L m c then sem L f m t else some m
@@ -308,7 +341,7 @@ def sem (L : Layout) : Nat → Mem → SStmt → Option Mem
   | f + 1, m, .doWhile b c =>
     (sem L f m b).bind fun m1 => if evalCond L m1 c then sem L f m1 (.doWhile b c) else some m1
   | f + 1, m, .for i c u b =>
-    sem L f (spec L m i) (.while c (.seq b (.flat u)))
+    sem L f (rspec L m i) (.while c (.seq b (.flat u)))
 
 /-! ### the machine on emitted lines -/
 
